@@ -2928,5 +2928,8 @@ fn main() {
     );
     ctx.require_min_count("tx-bytes-random", "mutated-accepted", 50_000);
     ctx.require_min_count("tx-bytes-random", "mutated-rejected", 200_000);
+    // coverage-guided byte-level campaigns (libFuzzer targets, oracle inside the target)
+    ctx.run_fuzz("tx_read", ctx.tier.pick(150_000, 10_000_000), ctx.tier.pick(4, 16), 8192);
+    ctx.run_fuzz("block_header", ctx.tier.pick(500_000, 10_000_000), ctx.tier.pick(2, 8), 2048);
     ctx.finish();
 }
